@@ -103,7 +103,7 @@ CHECKS["C12"] = dict(
 CHECKS["C13"] = dict(
     category="model_checking",
     technique="explicit-state search (BX) over request histories driven through the real Client and Server over TLS on loopback (LX)",
-    text="Every history of length <= 6 (thorough 8) over {start request, finish request i} x min_idle in {0,1,2}: per request the identity of the session that served it and the number of new TLS connections seen by a counting relay in front of the real server; a request that starts while no other is active and a healthy session exists must be served by an existing session without dialling; open sessions <= peak concurrency + min_idle after every step. Plus a virtual-time family: every history of depth 6 (7) over {start, finish i, the server drops connection j, wait I/2, wait > T+I} on the real Client over the in-memory dialer seam (H12) for 3 (5) interval/timeout/min_idle configurations; The virtual-time alphabet also has requests the client rejects locally, requests the target refuses, and requests during which session creation fails (dial refused / connection dropped before the TLS handshake). LX also has bursts, session deaths and a short-timeout family with a wait. DX: a burst of concurrent requests followed by sequential ones on the real Client (H12), <= 2 deviations.",
+    text="Every history of length <= 6 (thorough 8) over {start request, finish request i} x min_idle in {0,1,2}: per request the identity of the session that served it and the number of new TLS connections seen by a counting relay in front of the real server; a request that starts while no other is active and a healthy session exists must be served by an existing session without dialling; open sessions <= peak concurrency + min_idle after every step. Plus a virtual-time family: every history of depth 6 (7) over {start, finish i, the server drops connection j, wait I/2, wait > T+I} on the real Client over the in-memory dialer seam (H12) for 3 (5) interval/timeout/min_idle configurations; The virtual-time alphabet also has requests the client rejects locally, requests the target refuses, and requests during which session creation fails (dial refused / connection dropped before the TLS handshake). LX also has bursts, session deaths and a short-timeout family with a wait. DX (one execution at a time — session sequence numbers come from a process-wide counter): a burst of 2 or 3 concurrent requests, one of whose session creations may fail after the others have started (connection dropped 2 ms after the dial, healthy ones accepted after 5 ms, the third request arriving in between), followed by sequential ones on the real Client (H12), <= 1 (2) deviations.",
     note="Trusted: timers set to 1 h so only the history matters; loopback TLS; one schedule per history. Reuse is broken on the unchanged tree (open known finding keyed by the shortest failing history).",
     design="DESIGN.md §6 C13",
 )
